@@ -107,6 +107,12 @@ func (c *allChain) Step(dt time.Duration) *rig.BlockRecord {
 	for _, w := range c.ws {
 		w.Observe(br)
 	}
+	c.countTxs(br)
+	return br
+}
+
+// countTxs records, per message type, how many transactions succeeded and were rejected.
+func (c *allChain) countTxs(br *rig.BlockRecord) {
 	for _, tx := range br.Txs {
 		if tx.OK() {
 			c.run.Count("all-tx-ok", 1)
@@ -123,7 +129,30 @@ func (c *allChain) Step(dt time.Duration) *rig.BlockRecord {
 			c.run.Count("msg:"+sdk.MsgTypeURL(m)+okSuffix(tx), 1)
 		}
 	}
-	return br
+}
+
+// aliveTotals: every workload of the shared chain must have got its main message types through at least once over
+// the whole run; a workload that is silently dead on the shared chain (all its transactions rejected) makes the
+// cross-module checks observe less than they claim.
+func aliveTotals(extra map[string]int64) map[string]int64 {
+	m := map[string]int64{"priced-bind-ok": 1, "priced-call-ok": 1}
+	for _, t := range []string{
+		"coinswap.MsgAddLiquidity", "coinswap.MsgSwapOrder", "coinswap.MsgRemoveLiquidity",
+		"farm.MsgCreatePool", "farm.MsgStake", "farm.MsgUnstake", "farm.MsgHarvest", "farm.MsgAdjustPool",
+		"htlc.MsgCreateHTLC", "htlc.MsgClaimHTLC",
+		"mt.MsgIssueDenom", "mt.MsgMintMT", "mt.MsgTransferMT", "mt.MsgBurnMT",
+		"nft.MsgIssueDenom", "nft.MsgMintNFT", "nft.MsgTransferNFT", "nft.MsgBurnNFT",
+		"oracle.MsgCreateFeed", "oracle.MsgStartFeed", "oracle.MsgEditFeed",
+		"random.MsgRequestRandom", "record.MsgCreateRecord",
+		"service.MsgDefineService", "service.MsgBindService", "service.MsgCallService", "service.MsgRespondService", "service.MsgWithdrawEarnedFees", "service.MsgPauseRequestContext",
+		"token.v1.MsgIssueToken", "token.v1.MsgMintToken", "token.v1.MsgBurnToken", "token.v1.MsgSwapToERC20", "token.v1.MsgSwapFromERC20",
+	} {
+		m["msg:/irismod."+t+"-ok"] = 1
+	}
+	for k, v := range extra {
+		m[k] = v
+	}
+	return m
 }
 
 // StepAt is Step with an absolute block time.
